@@ -23,6 +23,13 @@ Engine B, two parts:
          text-mode file object, the whole str, the whole text as UTF-8 bytes, UTF-8 bytes lines / io.BytesIO with
          encoding=, bytes lines / io.BytesIO in another 8-bit encoding with encoding=.  Same paragraph descriptions, same second dump; and the second dump is
          also taken with dump(f=io.StringIO()), which must write the same text.
+  routes a subset of the documents (every header x no / each single paragraph, every ordered pair under the minimal header,
+         35 triples, the empty-value and long-text documents) is built, read and written the other public ways (DOC_ROUTES):
+         constructors over Deb822 mappings, values set after adding / after a dump and edited back, iterables and keyword
+         arguments, paragraphs taken over from a parsed document, deepcopy (and independence of the copy), iteration protocols,
+         mapping access to raw values, per-paragraph dumps in five forms, dump to text files, strict=False, positional
+         arguments, dump before any read, two documents alive, the same line list parsed twice.  Each must give the reference
+         description and the very text the ordinary build dumps.
 """
 import io
 import itertools
@@ -41,7 +48,8 @@ RULE = ("Engine B: states = prefixes of line lists / paragraph sequences generat
         "transition per paragraph appended, one trace per document; non-trivial = the document carries a Files value "
         "longer than 72 characters, a text line of >= 200 characters, a text of >= 30 lines or >= 5 contacts; input kinds: "
         "the way the dumped text is handed back to Copyright(...) is one more choice below the document: one state / "
-        "transition / trace per (document, kind), non-trivial by the document's own rule")
+        "transition / trace per (document, kind), non-trivial by the document's own rule; routes: likewise one state / "
+        "transition / trace per (document, route)")
 BUDGET = {"quick": 240, "thorough": 3000}
 
 FORMAT = "https://www.debian.org/doc/packaging-manuals/copyright-format/1.0/"
@@ -66,6 +74,20 @@ def bounds(tier):
                                 "checked": "paragraph descriptions of the re-parsed document, second dump == first dump, "
                                            "dump(f=StringIO) writes the same text",
                                 "other_encoding": "first of %s that can write the document" % (OTHER_ENCODINGS,)},
+            "doc_order": "36 sequences of 2..3 paragraphs over 2 Files and 2 License paragraphs in which a License paragraph "
+                         "precedes a Files paragraph (LF, LFF, LFL, LLF, FLF), written paragraph by paragraph, parsed strictly, then "
+                         "dumped as is / after adding a Files, a License, or both paragraphs (insertion rule of the docstrings); the "
+                         "dump re-parses to the same sequence",
+            "doc_routes": {"routes": list(DOC_ROUTES),
+                           "documents": "each of the 24 headers x (no paragraph, each of the 35 paragraphs); minimal header x every "
+                                        "ordered pair of the 35 paragraphs; 35 three-paragraph sequences (i, 7i+3, 11i+5 mod 35) "
+                                        "under header 5i mod 24; the empty-values documents; every third long-text document and 5 "
+                                        "long Files lists",
+                           "checked": "per route: values read == reference description, dump == the ordinary build's dump "
+                                      "(differential), strict re-parse == reference, second dump identical; see DOC_ROUTES in the "
+                                      "module for what each route does",
+                           "paragraph_dumps": PARA_DUMPS},
+            "codec_none": CODEC_NONE_CALLS,
             "doc_headers": ("24 header variants (Upstream-Name, Source, Upstream-Contact 0/1/2 entries, License) x "
                             "sequences of 0..1 paragraphs; minimal and full header x sequences of 2..3 paragraphs"
                             if tier == "quick" else "24 header variants x every sequence")}
@@ -108,7 +130,23 @@ def assumptions():
             "'encoding: Encoding to use, in case input is raw byte strings' (the underlying Deb822.iter_paragraphs also takes the "
             "whole text as one str); all of them read the same document on the unchanged library.  Lines 'without newline' are "
             "the dump split at '\\n'.  encoding= is only passed together with bytes input.  Copyright.dump documents f= 'a "
-            "file-like object opened in text mode'"]
+            "file-like object opened in text mode'",
+            "routes: a document is 'built' whichever public way its paragraphs came into being - Header / FilesParagraph / "
+            "LicenseParagraph constructed over a Deb822 mapping of raw field values (the documented constructor arguments), "
+            "create() with tuples / iterators / keyword arguments, values set or overwritten through the properties after the "
+            "paragraph was added (also after a first dump), paragraphs and header taken over from a parsed document, "
+            "copy.deepcopy of a document.  Raw values handed to the constructors are in the form the format writes them "
+            "(synopsis line, text lines after one blank, ' .' for an empty line; one contact on the field line, several on "
+            "continuation lines).  After a header field was removed and set again its place inside the header is left open "
+            "(only then is the text not compared with the ordinary build's)",
+            "routes: strict=False must read a well-formed document exactly as strict=True and log no complaint; the per-"
+            "paragraph dump() of RestrictedWrapper ('the dump method from Deb822 is directly proxied') joined by empty lines "
+            "is the document's dump, as str, to a text stream with text_mode=True, or as UTF-8 bytes",
+            "routes left out: pickle (Deb822 objects hold weak references and cannot be pickled on the unchanged library); "
+            "encoding= together with str input (str lines are re-decoded with that encoding on the unchanged library); "
+            "multi-byte stream encodings with a byte-order mark for paragraph dumps (every field write would carry its own "
+            "mark); Format-Specification / http: Format rewriting in Header (changes the document, only logged); Comment / "
+            "Disclaimer and custom fields (not among the values the statement lists)"]
 
 
 def _codec_n(tier):
@@ -423,6 +461,414 @@ def _codec_sweep_unit(part, u):
     return part
 
 
+
+# ------------------------------------------------------------------------------------------------ routes
+# "the other way in": the same document reached through the other public ways of building it, of reading it back and of
+# writing it.  Every route is judged against the reference description of the document and, differentially, against the
+# text the ordinary build (Copyright() + property setters + create() + add_*_paragraph) dumps.
+
+DOC_ROUTES = ["build/deb822-constructors", "build/set-after-add", "build/edit-after-dump", "build/iterables",
+              "build/from-parsed", "build/deepcopy", "read/iteration", "read/mapping-access", "dump/per-paragraph",
+              "dump/text-file", "parse/non-strict", "parse/positional-arguments", "parse/dump-first", "parse/two-documents",
+              "parse/same-lines-twice"]
+ROUTE_GROUPS = ["triples", "empty-values", "long"]       # + one unit per header ("header", h) and per first paragraph ("pair", i)
+
+
+def route_documents(seed, group):
+    dpool, headers = doc_pools(seed)
+    if isinstance(group, (list, tuple)) and group[0] == "header":
+        h = headers[group[1]]
+        return [(h, [])] + [(h, [p]) for p in dpool]
+    if isinstance(group, (list, tuple)) and group[0] == "pair":
+        return [(headers[0], [dpool[group[1]], q]) for q in dpool]
+    if group == "triples":
+        n = len(dpool)
+        return [(headers[(5 * i) % len(headers)], [dpool[i], dpool[(7 * i + 3) % n], dpool[(11 * i + 5) % n]]) for i in range(n)]
+    if group == "empty-values":
+        return [(c["header"], c["paras"]) for c in long_cases(seed, "empty-values")]
+    return [(c["header"], c["paras"]) for c in long_cases(seed, "texts")[::3]] + \
+           [(c["header"], c["paras"]) for c in long_cases(seed, "files-hyphen9")[210:240:6]]
+
+
+def _build_default(C, header, paras):
+    doc = C.Copyright()
+    if header["name"] is not None:
+        doc.header.upstream_name = header["name"]
+    if header["source"] is not None:
+        doc.header.source = header["source"]
+    if header["contact"] is not None:
+        doc.header.upstream_contact = list(header["contact"])
+    if header["license"] is not None:
+        doc.header.license = C.License(header["license"][0], header["license"][1])
+    for p in paras:
+        if p[0] == "F":
+            doc.add_files_paragraph(C.FilesParagraph.create(list(p[1]), p[2], C.License(p[3][0], p[3][1])))
+        else:
+            doc.add_license_paragraph(C.LicenseParagraph.create(C.License(p[1][0], p[1][1])))
+    return doc
+
+
+def raw_licence(lic):
+    """the License field value as the format writes it: synopsis, then each text line after one blank, an empty line as ' .'"""
+    if not lic[1]:
+        return lic[0]
+    return lic[0] + "".join("\n " + (l if l.strip() else ".") for l in lic[1].split("\n"))
+
+
+def raw_contacts(contacts):
+    return contacts[0] if len(contacts) == 1 else "".join("\n " + c for c in contacts)
+
+
+def _set_values(C, doc, header, paras):
+    """write the values of (header, paras) into an existing document of the same paragraph kinds, through the properties
+    of the paragraph objects the document hands out"""
+    h = doc.header
+    h.upstream_name = header["name"]
+    h.source = header["source"]
+    h.upstream_contact = list(header["contact"] or [])
+    h.license = C.License(header["license"][0], header["license"][1]) if header["license"] is not None else None
+    want_seq = model_sequence(paras)
+    objs = list(doc.all_paragraphs())[1:]
+    for o, p in zip(objs, want_seq):
+        if p[0] == "F":
+            o.license = C.License(p[3][0], p[3][1])
+            o.copyright = p[2]
+            o.files = list(p[1])
+        else:
+            o.license = C.License(p[1][0], p[1][1])
+
+
+def _placeholder(header, paras):
+    """a document of the same shape with other values everywhere (optional header fields all present)"""
+    h = {"name": "placeholder", "source": "http://placeholder/", "contact": ["P <p@q>", "Q", "R"], "license": ["ZZ", "zz\n\n zz"]}
+    ps = [["F", ["zz/*", "yy"], "1999 Z\n 2000 Y", ["ZZ", "zz"]] if p[0] == "F" else ["L", ["ZZ", "\nzz"]] for p in paras]
+    return h, ps
+
+
+def _check_document(C, doc, want, ref_text, pre, what):
+    """description, dump == the ordinary build's dump, strict re-parse, identical second dump"""
+    try:
+        got = describe(C, doc)
+    except Exception as e:
+        return [(pre + what + "-read-raises/" + type(e).__name__, "values read", repr(e))]
+    if got != want:
+        d = _first_difference(want, got)
+        return [(pre + what + "/" + d[0], d[1], d[2])]
+    try:
+        text = doc.dump()
+    except Exception as e:
+        return [(pre + what + "-dump-raises/" + type(e).__name__, "text", repr(e))]
+    if ref_text is not None and text != ref_text:
+        return [(pre + what + "-dump", ref_text, text)]
+    try:
+        doc2 = C.Copyright(text.splitlines(True), strict=True)
+        again = describe(C, doc2)
+        text2 = doc2.dump()
+    except Exception as e:
+        return [(pre + what + "-reparse-raises/" + type(e).__name__, "strict parse of %r succeeds" % (text,), repr(e))]
+    if again != want:
+        d = _first_difference(want, again)
+        return [(pre + what + "-reparse/" + d[0], d[1], "%s  (dump: %r)" % (d[2], text))]
+    if text2 != text:
+        return [(pre + what + "-redump", text, text2)]
+    return []
+
+
+def _para_texts(doc, how):
+    out = []
+    for p in doc.all_paragraphs():
+        if how == "dump()":
+            out.append(p.dump())
+        elif how == "dump(text_mode=True)":
+            out.append(p.dump(text_mode=True))
+        elif how == "dump(encoding='utf-8')":
+            out.append(p.dump(encoding="utf-8"))
+        elif how == "dump(StringIO, text_mode=True)":
+            f = io.StringIO()
+            r = p.dump(f, text_mode=True)
+            out.append(f.getvalue() if r is None else "returned %r" % (r,))
+        elif how == "dump(BytesIO)":
+            f = io.BytesIO()
+            r = p.dump(f)
+            out.append(f.getvalue().decode("utf-8") if r is None else "returned %r" % (r,))
+        else:
+            raise AssertionError(how)
+    return "\n".join(out)
+
+
+PARA_DUMPS = ["dump()", "dump(text_mode=True)", "dump(encoding='utf-8')", "dump(StringIO, text_mode=True)", "dump(BytesIO)"]
+
+
+def run_route_case(case):
+    """-> (violations, outcome class) for one (document, route)"""
+    import copy
+    import tempfile
+    C = _copyright()
+    from debian import deb822
+    header, paras, route = case["header"], case["paras"], case["route"]
+    pre = "via-%s/" % route
+    want = model_description(header, paras)
+    try:
+        ref = _build_default(C, header, paras)
+        ref_text = ref.dump()
+        ref_doc2 = C.Copyright(ref_text.splitlines(True), strict=True)
+        if describe(C, ref) != want or describe(C, ref_doc2) != want or ref_doc2.dump() != ref_text:
+            raise ValueError("ordinary route differs")
+    except Exception:
+        # the ordinary route itself fails on this document: that is the ordinary document pass's finding
+        return run_doc_case({"part": "doc", "header": header, "paras": paras})[0], "ordinary-route-fails"
+    seq = model_sequence(paras)
+    try:
+        if route == "build/deb822-constructors":
+            hd = {"Format": FORMAT}
+            if header["name"] is not None:
+                hd["Upstream-Name"] = header["name"]
+            if header["source"] is not None:
+                hd["Source"] = header["source"]
+            if header["contact"]:
+                hd["Upstream-Contact"] = raw_contacts(header["contact"])
+            if header["license"] is not None:
+                hd["License"] = raw_licence(header["license"])
+            doc = C.Copyright()
+            doc.header = C.Header(deb822.Deb822(hd))
+            for p in paras:
+                if p[0] == "F":
+                    d = deb822.Deb822({"Files": " ".join(p[1]), "Copyright": p[2], "License": raw_licence(p[3])})
+                    doc.add_files_paragraph(C.FilesParagraph(d, strict=True))
+                else:
+                    doc.add_license_paragraph(C.LicenseParagraph(deb822.Deb822({"License": raw_licence(p[1])})))
+            return _check_document(C, doc, want, ref_text, pre, "doc"), "route:" + route
+        if route in ("build/set-after-add", "build/edit-after-dump"):
+            ph, pp = _placeholder(header, paras)
+            doc = _build_default(C, ph, pp)
+            if route == "build/edit-after-dump":
+                # the placeholder document is read, dumped, re-parsed and matched first (warm caches), then edited
+                bad = _check_document(C, doc, model_description(ph, pp), doc.dump(), pre, "placeholder")
+                if bad:
+                    return bad, "differs"
+                for fp in doc.all_files_paragraphs():
+                    fp.matches("zz/a")
+            _set_values(C, doc, header, paras)
+            bad = _check_document(C, doc, want, ref_text, pre, "doc")
+            if bad or route == "build/set-after-add":
+                return bad, "route:" + route
+            # and back again: a second edit of the same objects, a third dump (a header field that was removed and is set
+            # again may take another place in its paragraph: the text is not compared with the ordinary build's)
+            _set_values(C, doc, ph, pp)
+            return _check_document(C, doc, model_description(ph, pp), None, pre, "edited-back"), "route:" + route
+        if route == "build/iterables":
+            doc = C.Copyright()
+            h = doc.header
+            if header["name"] is not None:
+                h.upstream_name = header["name"]
+            if header["source"] is not None:
+                h.source = header["source"]
+            if header["contact"] is not None:
+                h.upstream_contact = (c for c in tuple(header["contact"]))
+            if header["license"] is not None:
+                h.license = C.License(text=header["license"][1], synopsis=header["license"][0])
+            for i, p in enumerate(paras):
+                if p[0] == "F":
+                    files = tuple(p[1]) if i % 2 else iter(list(p[1]))
+                    lic = C.License(synopsis=p[3][0], text=p[3][1]) if p[3][1] else (C.License(p[3][0], None) if i % 2 else C.License(p[3][0]))
+                    doc.add_files_paragraph(C.FilesParagraph.create(files=files, copyright=p[2], license=lic))
+                else:
+                    doc.add_license_paragraph(C.LicenseParagraph.create(license=C.License.from_str(raw_licence(p[1]))))
+            return _check_document(C, doc, want, ref_text, pre, "doc"), "route:" + route
+        if route == "build/from-parsed":
+            # the header and the paragraphs of a parsed document, put into a new document
+            doc = C.Copyright()
+            doc.header = ref_doc2.header
+            for p in list(ref_doc2.all_paragraphs())[1:]:
+                if isinstance(p, C.FilesParagraph):
+                    doc.add_files_paragraph(p)
+                else:
+                    doc.add_license_paragraph(p)
+            return _check_document(C, doc, want, ref_text, pre, "doc"), "route:" + route
+        if route == "build/deepcopy":
+            for name, src in (("built", ref), ("parsed", ref_doc2)):
+                doc = copy.deepcopy(src)
+                bad = _check_document(C, doc, want, ref_text, pre, "copy-of-" + name)
+                if bad:
+                    return bad, "differs"
+                # the copy is a document of its own
+                ph, pp = _placeholder(header, paras)
+                _set_values(C, doc, ph, pp)
+                bad = _check_document(C, src, want, ref_text, pre, name + "-after-editing-its-copy")
+                if bad:
+                    return bad, "differs"
+            return [], "route:" + route
+        if route == "read/iteration":
+            for name, doc in (("built", ref), ("parsed", ref_doc2)):
+                allp = list(doc.all_paragraphs())
+                if [id(x) for x in doc] != [id(x) for x in allp] or [id(x) for x in iter(doc)] != [id(x) for x in allp]:
+                    return [(pre + name + "/iter", "the paragraphs of all_paragraphs()", [type(x).__name__ for x in doc])], "differs"
+                if allp[0] is not doc.header:
+                    return [(pre + name + "/header-first", "doc.header", type(allp[0]).__name__)], "differs"
+                fs, ls = list(doc.all_files_paragraphs()), list(doc.all_license_paragraphs())
+                if [id(x) for x in fs] != [id(x) for x in allp[1:] if isinstance(x, C.FilesParagraph)] or len(fs) != sum(1 for q in seq if q[0] == "F"):
+                    return [(pre + name + "/all_files_paragraphs", [q[1] for q in seq if q[0] == "F"], [tuple(x.files) for x in fs])], "differs"
+                if [id(x) for x in ls] != [id(x) for x in allp[1:] if isinstance(x, C.LicenseParagraph)] or len(ls) != sum(1 for q in seq if q[0] == "L"):
+                    return [(pre + name + "/all_license_paragraphs", [q[1] for q in seq if q[0] == "L"], [tuple(x.license) for x in ls])], "differs"
+                # read in another order, twice: licence paragraphs first, files last
+                got = [("L", ("license-synopsis", x.license.synopsis), ("license-text", x.license.text)) for x in ls]
+                got = [("F", ("files", tuple(x.files)), ("copyright", x.copyright), ("license-synopsis", x.license.synopsis),
+                        ("license-text", x.license.text)) for x in fs] + got
+                if sorted(got) != sorted(want[1:]) or describe(C, doc) != want:
+                    return [(pre + name + "/values", want, got)], "differs"
+            return [], "route:" + route
+        if route == "read/mapping-access":
+            for name, doc in (("built", ref), ("parsed", ref_doc2)):
+                for o, q in zip(list(doc.all_paragraphs())[1:], seq):
+                    lic = q[3] if q[0] == "F" else q[1]
+                    exp = ([("Files", " ".join(q[1])), ("Copyright", q[2])] if q[0] == "F" else []) + [("License", raw_licence(lic))]
+                    got = [(k, o[k]) for k in o]
+                    low = [(k, o[k.lower()]) for k in o]
+                    if got != exp or low != exp or len(o) != len(exp):
+                        return [(pre + name + "/items", exp, (got, low, len(o)))], "differs"
+            return [], "route:" + route
+        if route == "dump/per-paragraph":
+            for name, doc in (("built", ref), ("parsed", ref_doc2)):
+                for how in PARA_DUMPS:
+                    got = _para_texts(doc, how)
+                    if got != ref_text:
+                        return [(pre + name + "/" + how, ref_text, got)], "differs"
+                if doc.dump() != ref_text:
+                    return [(pre + name + "/document-dump-afterwards", ref_text, doc.dump())], "differs"
+            return [], "route:" + route
+        if route == "dump/text-file":
+            for name, doc in (("built", ref), ("parsed", ref_doc2)):
+                raw = io.BytesIO()
+                f = io.TextIOWrapper(raw, encoding="utf-8", newline="")
+                r = doc.dump(f)
+                f.flush()
+                if r is not None or raw.getvalue().decode("utf-8") != ref_text:
+                    return [(pre + name + "/TextIOWrapper", "None returned, %r written" % (ref_text,),
+                             "%r returned, %r written" % (r, raw.getvalue().decode("utf-8", "replace")))], "differs"
+                with tempfile.TemporaryFile("w+", encoding="utf-8", newline="") as t:
+                    r = doc.dump(f=t)
+                    t.seek(0)
+                    got = t.read()
+                if r is not None or got != ref_text:
+                    return [(pre + name + "/temporary-file", "None returned, %r written" % (ref_text,), "%r returned, %r written" % (r, got))], "differs"
+                if doc.dump() != ref_text or doc.dump(None) != ref_text:
+                    return [(pre + name + "/dump-afterwards", ref_text, doc.dump())], "differs"
+            return [], "route:" + route
+        if route in ("parse/non-strict", "parse/positional-arguments"):
+            with _captured_log() as records:
+                if route == "parse/non-strict":
+                    doc = C.Copyright(ref_text.splitlines(True), strict=False)
+                else:
+                    doc = C.Copyright(ref_text.splitlines(True), "utf-8", True)
+            if records:
+                return [(pre + "complains", "no complaint about a well-formed document", records)], "differs"
+            return _check_document(C, doc, want, ref_text, pre, "doc"), "route:" + route
+        if route == "parse/dump-first":
+            doc = C.Copyright(ref_text.splitlines(True), strict=True)
+            t1 = doc.dump()
+            if t1 != ref_text:
+                return [(pre + "dump-before-any-read", ref_text, t1)], "differs"
+            bad = _check_document(C, doc, want, ref_text, pre, "doc")
+            if not bad and doc.dump() != ref_text:
+                bad = [(pre + "third-dump", ref_text, doc.dump())]
+            return bad, "route:" + route
+        if route == "parse/two-documents":
+            # a second document (the placeholder of this one, then this one again) alive and used in between
+            ph, pp = _placeholder(header, paras)
+            oth_text = _build_default(C, ph, pp).dump()
+            a = C.Copyright(ref_text.splitlines(True), strict=True)
+            b = C.Copyright(oth_text.splitlines(True), strict=True)
+            c = C.Copyright(ref_text.splitlines(True), strict=True)
+            for fp in list(b.all_files_paragraphs()) + list(a.all_files_paragraphs()):
+                fp.matches("zz/a")
+            bad = _check_document(C, b, model_description(ph, pp), oth_text, pre, "other")
+            bad = bad or _check_document(C, a, want, ref_text, pre, "first")
+            _set_values(C, a, ph, pp)
+            bad = bad or _check_document(C, c, want, ref_text, pre, "twin-after-editing-the-first")
+            return bad, "route:" + route
+        if route == "parse/same-lines-twice":
+            lines = ref_text.splitlines(True)
+            keep = list(lines)
+            a = C.Copyright(lines, strict=True)
+            if lines != keep:
+                return [(pre + "lines-changed", keep, lines)], "differs"
+            b = C.Copyright(lines, strict=True)
+            bad = _check_document(C, b, want, ref_text, pre, "second") or _check_document(C, a, want, ref_text, pre, "first")
+            if not bad:
+                # two documents read from one list of lines are two documents
+                ph, pp = _placeholder(header, paras)
+                _set_values(C, a, ph, pp)
+                bad = _check_document(C, b, want, ref_text, pre, "second-after-editing-the-first")
+            return bad, "route:" + route
+    except Exception as e:
+        return [(pre + "raises/" + type(e).__name__, "no exception", repr(e))], "raises"
+    raise AssertionError(route)
+
+
+class _captured_log(object):
+    """records what debian.copyright logs (strict=False reports format problems as warnings)"""
+
+    def __enter__(self):
+        self.records = []
+        outer = self
+
+        class H(logging.Handler):
+            def emit(self, record):
+                outer.records.append(record.getMessage())
+        self.h = H()
+        self.h.setLevel(logging.DEBUG)
+        lg = logging.getLogger("debian.copyright")
+        self.level = lg.level
+        lg.setLevel(logging.DEBUG)
+        lg.addHandler(self.h)
+        return self.records
+
+    def __exit__(self, *a):
+        lg = logging.getLogger("debian.copyright")
+        lg.removeHandler(self.h)
+        lg.setLevel(self.level)
+        return False
+
+
+def _doc_routes_unit(part, u, seed):
+    docs = route_documents(seed, u["group"])
+    case = None
+    for header, paras in docs:
+        part.states += 1
+        for route in DOC_ROUTES:
+            case = {"part": "doc", "header": header, "paras": paras, "route": route}
+            bad, cls = run_route_case(case)
+            part.states += 1
+            part.transitions += 1
+            part.traces += 1
+            part.evaluations += 1
+            part.outcomes["%s: %s" % (route, "as the ordinary build" if not bad else cls)] += 1
+            part.extra["documents via " + route] += 1
+            if long_features(case) or _doc_nontrivial(paras):
+                part.nontrivial += 1
+            for sig, e, o in bad:
+                part.violation(sig, case, e, o, rank=6)
+            part.max_depth = max(part.max_depth, len(paras))
+    part.sample(case)
+    return part
+
+
+CODEC_NONE_CALLS = ["format_multiline(None)", "parse_multiline(None)", "License.from_str(None)"]
+
+
+def run_codec_none_case(case):
+    C = _copyright()
+    call = case["call"]
+    try:
+        got = {"format_multiline(None)": lambda: C.format_multiline(None), "parse_multiline(None)": lambda: C.parse_multiline(None),
+               "License.from_str(None)": lambda: C.License.from_str(None)}[call]()
+    except Exception as e:
+        return [("codec/none/%s-raises" % call, None, repr(e))], "raises"
+    if got is not None:
+        return [("codec/none/" + call, None, got)], "differs"
+    return [], "codec-none"
+
+
 # ------------------------------------------------------------------------------------------------ units
 
 def units(tier, seed):
@@ -455,6 +901,10 @@ def units(tier, seed):
     if tier == "thorough":
         out += [{"part": "doc-long", "group": g} for g in LONG_GROUPS_THOROUGH]
     out += [{"part": "doc-kinds", "group": g} for g in KIND_GROUPS]
+    out += [{"part": "doc-routes", "group": ["header", h]} for h in range(len(headers))]
+    out += [{"part": "doc-routes", "group": ["pair", i]} for i in range(len(dpool))]
+    out += [{"part": "doc-routes", "group": g} for g in ROUTE_GROUPS]
+    out.append({"part": "doc-order"})
     return out
 
 
@@ -463,6 +913,10 @@ def unit_cost(u, tier):
         return 400 * 600
     if u["part"] == "doc-kinds":
         return 70 * 11 * 600
+    if u["part"] == "doc-routes":
+        return 36 * 15 * 1500
+    if u["part"] == "doc-order":
+        return 60 * 4 * 1500
     if u["part"] == "codec-sweep":
         return len(u["chars"]) * 5 * 12
     if u["part"] == "codec":
@@ -597,6 +1051,14 @@ def _codec_unit(part, u):
     if u["prefix"] is None:
         lists = [[]] + [[s] for s in pool]
         part.states += 1
+        for call in CODEC_NONE_CALLS:          # "no value" passes through every level of the codec
+            case = {"part": "codec-none", "call": call}
+            bad, cls = run_codec_none_case(case)
+            part.traces += 1
+            part.evaluations += 1
+            part.outcomes["codec:" + cls] += 1
+            for sig, e, o in bad:
+                part.violation(sig, case, e, o)
     else:
         pre = [pool[i] for i in u["prefix"]]
         lists = []
@@ -756,6 +1218,115 @@ def _run_doc_case(case):
             return [(pre + "doc/redump-to-file", "None returned, %r written" % (text,), "%r returned, %r written" % (r, f.getvalue()))], "differs"
     kinds = "".join(p[0] for p in model_sequence(paras))
     return [], "doc:H" + kinds
+
+
+# ---- documents whose text has the paragraphs in an order the adding methods never produce (a stand-alone License
+# paragraph ahead of a Files paragraph): parsed, then dumped / extended and dumped
+
+ORDER_ADDS = [None, "F", "L", "FL"]
+
+
+def order_sequences(seed):
+    """all sequences of 2..3 paragraphs over two Files and two License paragraphs in which some License paragraph precedes
+    a Files paragraph"""
+    dpool, _headers = doc_pools(seed)
+    f1, f2 = dpool[0], dpool[7]
+    l1, l2 = dpool[31], dpool[32]
+    assert f1[0] == f2[0] == "F" and l1[0] == l2[0] == "L" and f1 != f2 and l1 != l2
+    four = [f1, f2, l1, l2]
+    out = []
+    for n in (2, 3):
+        for seq in itertools.product(range(4), repeat=n):
+            kinds = "".join(four[i][0] for i in seq)
+            if "LF" in kinds or kinds in ("LFL", "LLF", "FLF") or ("L" in kinds and kinds.rfind("F") > kinds.find("L")):
+                out.append([four[i] for i in seq])
+    return out
+
+
+def _para_desc(p):
+    if p[0] == "F":
+        return ("F", ("files", tuple(p[1])), ("copyright", p[2]), ("license-synopsis", p[3][0]), ("license-text", p[3][1]))
+    return ("L", ("license-synopsis", p[1][0]), ("license-text", p[1][1]))
+
+
+def run_order_case(case):
+    """-> (violations, outcome class)"""
+    C = _copyright()
+    header, paras, add = case["header"], case["paras"], case.get("add")
+
+    def mk(p):
+        if p[0] == "F":
+            return C.FilesParagraph.create(list(p[1]), p[2], C.License(p[3][0], p[3][1]))
+        return C.LicenseParagraph.create(C.License(p[1][0], p[1][1]))
+    try:
+        d0 = C.Copyright()
+        if header["name"] is not None:
+            d0.header.upstream_name = header["name"]
+        text = "\n".join([d0.header.dump()] + [mk(p).dump() for p in paras])
+    except Exception as e:
+        return [("doc/order/write-raises/" + type(e).__name__, "paragraph texts", repr(e))], "raises"
+    want = [model_description(header, [])[0]] + [_para_desc(p) for p in paras]
+    try:
+        doc = C.Copyright(text.splitlines(True), strict=True)
+        got = describe(C, doc)
+    except Exception as e:
+        return [("doc/order/parse-raises/" + type(e).__name__, "strict parse of %r succeeds" % (text,), repr(e))], "raises"
+    if got != want:
+        d = _first_difference(want, got)
+        return [("doc/order/parse/" + d[0], d[1], "%s  (text: %r)" % (d[2], text))], "differs"
+    # extending the parsed document: a Files paragraph goes directly after the last Files paragraph, a License paragraph
+    # to the end (docstrings of the adding methods)
+    seq = list(paras)
+    newf = ["F", ["new/*"], "2024 N", ["N", ""]]
+    newl = ["L", ["NL", "new text"]]
+    try:
+        for a in add or "":
+            if a == "F":
+                last = max(i for i, q in enumerate(seq) if q[0] == "F") if any(q[0] == "F" for q in seq) else -1
+                seq.insert(last + 1, newf)
+                doc.add_files_paragraph(mk(newf))
+            else:
+                seq.append(newl)
+                doc.add_license_paragraph(mk(newl))
+        got = describe(C, doc)
+    except Exception as e:
+        return [("doc/order/add-raises/" + type(e).__name__, "paragraph added", repr(e))], "raises"
+    want = [want[0]] + [_para_desc(p) for p in seq]
+    if got != want:
+        d = _first_difference(want, got)
+        return [("doc/order/add/" + d[0], d[1], d[2])], "differs"
+    try:
+        out = doc.dump()
+        again = describe(C, C.Copyright(out.splitlines(True), strict=True))
+    except Exception as e:
+        return [("doc/order/dump-or-reparse-raises/" + type(e).__name__, "dump of the parsed document re-parses", repr(e))], "raises"
+    if again != want:
+        d = _first_difference(want, again)
+        return [("doc/order/reparse/" + d[0], d[1], "%s  (dump: %r)" % (d[2], out))], "differs"
+    if not add and out != text:
+        return [("doc/order/dump-text", text, out)], "differs"
+    return [], "doc-order:H" + "".join(p[0] for p in seq)
+
+
+def _doc_order_unit(part, u, seed):
+    _dpool, headers = doc_pools(seed)
+    header = headers[0]
+    for paras in order_sequences(seed):
+        part.states += 1
+        for add in ORDER_ADDS:
+            case = {"part": "doc-order", "header": header, "paras": paras, "add": add}
+            bad, cls = run_order_case(case)
+            part.transitions += len(paras) + len(add or "")
+            part.traces += 1
+            part.evaluations += 3
+            part.nontrivial += 1
+            part.outcomes[cls if not bad else "VIOLATION:" + bad[0][0]] += 1
+            for sig, exp, obs in bad:
+                part.violation(sig, case, exp, obs, rank=len(paras) * 10 + len(add or ""))
+            part.extra["parsed documents with a License paragraph ahead of a Files paragraph"] += 1
+    part.max_depth = 5
+    part.sample(case)
+    return part
 
 
 # ---- the documented ways of handing text to Copyright(...)
@@ -930,6 +1501,10 @@ def run_unit(u, tier, seed):
         return _doc_long_unit(part, u, seed)
     if u["part"] == "doc-kinds":
         return _doc_kinds_unit(part, u, seed)
+    if u["part"] == "doc-routes":
+        return _doc_routes_unit(part, u, seed)
+    if u["part"] == "doc-order":
+        return _doc_order_unit(part, u, seed)
     return _doc_unit(part, u)
 
 
@@ -938,6 +1513,12 @@ def run_unit(u, tier, seed):
 def replay(case):
     if case.get("part") == "codec":
         return run_codec_case(case)[0]
+    if case.get("part") == "codec-none":
+        return run_codec_none_case(case)[0]
+    if case.get("part") == "doc-order":
+        return run_order_case(case)[0]
+    if case.get("part") == "doc" and case.get("route"):
+        return run_route_case(case)[0]
     if case.get("part") == "doc":
         return run_doc_case(case)[0]
     raise ValueError("unknown case %r" % (case,))
